@@ -1,7 +1,7 @@
 CONSTANTS
  Procs = {"p1", "p2", "p3"}
  Queues = {"q1", "q2", "q3"}
- MaxMax = 2
+ MaxMax = 1
  MultiLens = {3}
  Confs <- AllConfs
 INIT Init
